@@ -369,6 +369,99 @@ def special_tables(tier):
     return out
 
 
+def plateau_table(r, n, M):
+    """piecewise-constant pulse: plateaus of >= 2 half steps in column 0 with at least one switch
+    (for N >= 4: one switch at a step boundary and one mid-step); further columns constant"""
+    total = 2 * n
+    if total >= 8:
+        lengths = [2, 3]                  # switches after half step 2 (boundary) and 5 (mid-step)
+        rest = total - 5
+        while rest >= 4 and r.random() < 0.5:
+            cut = r.randrange(2, rest - 1)
+            lengths.append(cut)
+            rest -= cut
+        lengths.append(rest)
+    elif total >= 5:
+        lengths = r.choice([[2, total - 2], [3, total - 3]])
+    else:
+        lengths = [total]
+    vals, prev = [], None
+    for _ in lengths:
+        v = round(r.uniform(-2, 2), 2)
+        while prev is not None and abs(v - prev) < 0.3:
+            v = round(r.uniform(-2, 2), 2)
+        vals.append(v)
+        prev = v
+    col0 = [v for v, l in zip(vals, lengths) for _ in range(l)]
+    const = [round(r.uniform(-1, 1), 2) for _ in range(M - 1)]
+    return np.array([[col0[k]] + const for k in range(total)], dtype=float)
+
+
+def closure_order_mismatch(system_factory, dt, params, n, order, derivatives=False):
+    """max |value from ONE closure queried in `order`  -  value from a fresh object queried once|"""
+    used = system_factory()
+    f = used.get_propagator_derivatives(dt, params) if derivatives else used.get_propagators(dt, params)
+    worst = 0.0
+    for k in order:
+        got = f(k)
+        fresh = system_factory()
+        g = fresh.get_propagator_derivatives(dt, params) if derivatives else fresh.get_propagators(dt, params)
+        want = g(k)
+        for a, b in zip(got, want):
+            worst = max(worst, float(np.abs(np.array(a) - np.array(b)).max()))
+    return worst
+
+
+def closure_order_checks(r, tier):
+    """(key, mismatch) for the closures of get_propagators / get_propagator_derivatives evaluated in
+    decreasing and random order of the step on plateau tables"""
+    out = []
+    for M, n in ([(1, 4), (2, 3)] if tier == "quick" else [(1, 4), (2, 3), (2, 6), (1, 3)]):
+        params = plateau_table(r, n, M)
+        orders = {"decreasing": list(range(n - 1, -1, -1)),
+                  "random": r.sample(range(n), n) + r.sample(range(n), n)}
+        for oname, order in orders.items():
+            fac = lambda M=M: make_real_system(M, "param", [0.5, 0.2, 0.1], derivs="frechet")
+            out.append(("closure-order:get_propagators:M=%d:N=%d:order=%s" % (M, n, oname),
+                        closure_order_mismatch(fac, DT, params, n, order),
+                        {"parameters": params.tolist(), "order": order, "dt": DT}))
+            out.append(("closure-order:get_propagator_derivatives(user-supplied):M=%d:N=%d:order=%s"
+                        % (M, n, oname),
+                        closure_order_mismatch(fac, DT, params, n, order, derivatives=True),
+                        {"parameters": params.tolist(), "order": order, "dt": DT}))
+        if M == 1:
+            fac = lambda M=M: make_real_system(M, "param", [0.5, 0.2, 0.1], derivs="numdiff")
+            order = list(range(n - 1, -1, -1))
+            out.append(("closure-order:get_propagator_derivatives(numdifftools):M=%d:N=%d:order=decreasing"
+                        % (M, n),
+                        closure_order_mismatch(fac, DT, params, n, order, derivatives=True),
+                        {"parameters": params.tolist(), "order": order, "dt": DT}))
+    return out
+
+
+def plateau_cases(rng, tier):
+    """plateau tables through numdifftools and user-supplied derivatives; the model's P, P' come from
+    fresh objects queried once per step (so they cannot depend on the order of evaluation)"""
+    out = []
+    for M, n, derivs in ([(1, 3, "numdiff"), (2, 4, "frechet")] if tier == "quick" else
+                         [(1, 3, "numdiff"), (2, 4, "frechet"), (2, 3, "numdiff"), (1, 4, "frechet")]):
+        params = plateau_table(rng, n, M)
+        used = make_real_system(M, "param", [0.5, 0.2, 0.1], derivs=derivs)
+        props, dprops = [], []
+        for k in range(n):
+            fresh = make_real_system(M, "param", [0.5, 0.2, 0.1], derivs="frechet")
+            props.append(fresh.get_propagators(DT, params)(k))
+            dprops.append(fresh.get_propagator_derivatives(DT, params)(k))
+        pts = [rand_pt(rng, n, rand_bonds(rng, n, 2))]
+        out.append(dict(desc={"E": 1, "N": n, "M": M, "bonds": "rand<=2", "pt_kinds": ["random"],
+                              "system": "real-param-dissipator-" + ("numdifftools" if derivs == "numdiff"
+                                                                    else "user-derivs"),
+                              "target": "array", "table": "plateaus with switches"},
+                        pts=pts, n=n, M=M, rho0=_grid(rng, (2, 2), 8), tgt=_grid(rng, (2, 2), 8),
+                        system=used, params=params, props=props, dprops=dprops, grad_rtol=1e-6))
+    return out
+
+
 def special_cases(rng, tier):
     """numerically differentiated derivatives at special parameter tables; the model's P, P' come
     from a fresh object with user-supplied (Frechet) derivatives at the same values as float64"""
@@ -430,6 +523,13 @@ def correspondence(res, tier, rng):
     for M in ([2] if tier == "quick" else [1, 2, 3]):
         cases += reuse_cases(rng, M)
     cases += special_cases(rng, tier)
+    cases += plateau_cases(rng, tier)
+    # the closures must not depend on the order in which the steps are requested
+    for key, err, info in closure_order_checks(rng, tier):
+        res.count("closure-order")
+        res.case(key, True)
+        if not err <= 1e-13:
+            res.disagree("%s: differs from a fresh object by %g" % (key, err), dict(info, key=key))
     # cases through the library's own numerically differentiated propagator derivatives
     nd = 0 if tier == "quick" else 4
     for j in range(nd):
@@ -688,10 +788,51 @@ def search(res):
         mixed_search(res, key)
     for key in SPECIAL_KEYS:
         special_search(res, key)
+    for key in PLATEAU_KEYS:
+        plateau_search(res, key)
+    closure_order_search(res)
 
 
 MIXED_KEYS = ["fd:mixed-table:numdifftools:M=2:N=2", "fd:mixed-table:numdifftools:M=3:N=1",
               "fd:mixed-table:user-derivs:M=2:N=2", "fd:mixed-table:user-derivs:M=3:N=2"]
+
+
+PLATEAU_KEYS = ["fd:plateau-table:numdifftools:M=1:N=4", "fd:plateau-table:numdifftools:M=2:N=3",
+                "fd:plateau-table:user-derivs:M=2:N=6", "fd:plateau-table:user-derivs:M=1:N=3"]
+
+
+def plateau_search(res, key):
+    """piecewise-constant pulses with plateaus (>= 2 half steps) and switches at step boundaries and
+    mid-step; finite differences of the objective"""
+    parts = dict(x.split("=") for x in key.split(":") if "=" in x)
+    M, n = int(parts["M"]), int(parts["N"])
+    derivs = "numdiff" if "numdifftools" in key else "frechet"
+    r = random.Random(hash_key(key))
+    spec = (M, "param", [0.5, 0.2, 0.1])
+    params = plateau_table(r, n, M)
+    pts = [rand_pt(r, n, rand_bonds(r, n, 2))]
+    rho0 = np.array([[0.75, 0.25 - 0.125j], [0.25 + 0.125j, 0.25]])
+    tgt = np.array([[0.5, 0.25 + 0.5j], [0.125, 0.5]])
+    ptdesc = {"kind": "hand-built random rank-4 MPOs, random.Random(hash of the key) stream",
+              "parameter_table": "plateaus of >= 2 half steps with switches"}
+    return judge(res, key, spec, pts, rho0, tgt, params, ptdesc, derivs=derivs)
+
+
+def closure_order_search(res, only=None):
+    """direct oracle on the closures: props(k) / derivs(k) requested in decreasing / random order of
+    k equal the values of a fresh object (1e-13)"""
+    ok = True
+    for key, err, info in closure_order_checks(random.Random(1212), "quick"):
+        if only is not None and key != only:
+            continue
+        if not err <= 1e-13:
+            ok = False
+            res.fail(key, dict(info, api="ParameterizedSystem." + key.split(":")[1].split("(")[0],
+                               what="the closure's value for a step depends on which steps were "
+                                    "requested before (differs from a fresh object)",
+                               max_difference=err, system="harness real_system_parts(M, 'param', "
+                                                          "[0.5, 0.2, 0.1])"))
+    return ok
 
 
 SPECIAL_KEYS = ["fd:special-table:numdifftools:zero-pulse:M=1:N=2",
@@ -812,6 +953,8 @@ def replay_one(res, payload):
     """re-judge a recorded failing input (corpus/C08/*.json, --replay) on the tree under test"""
     key = payload.get("key", "")
     fi = payload.get("failing_input", {})
+    if key.startswith("closure-order:"):
+        return closure_order_search(res, only=key)
     if not key.startswith("fd:"):
         res.notes.append("replay: no oracle for key %r" % key)
         return None
@@ -820,6 +963,8 @@ def replay_one(res, payload):
         return reuse_search(res, only=base)
     if base.startswith("fd:mixed-table:"):
         return mixed_search(res, base)
+    if base.startswith("fd:plateau-table:"):
+        return plateau_search(res, base)
     if base.startswith("fd:special-table:"):
         if base.endswith(":vs-float64"):
             base = base[:-len(":vs-float64")]
